@@ -86,8 +86,10 @@ LEVEL_TEXT = ("Machine-checked proof (Coq, all inputs) over an executable model 
               "the remaining views and the signatures of deduplicate_matches_with_anchor are in the model; the function drops only duplicates when "
               "every free orbit is a singleton, and merges unrelated matches otherwise (witness).  The model is tied to the code by a per-run correspondence on exhaustive small scopes, random graphs, "
               "symmetric families, engine-produced match lists and reactor applications.")
-LEVEL_NOTE = ("Trusted: Coq kernel + vm_compute; the model and encoders; VF2 = a duplicate-free listing of the automorphisms (monitored).  Invariance "
-              "of gluing under rule automorphisms is a named premise (C05), tested end-to-end here (also with partial=True).")
+LEVEL_NOTE = ("Trusted: Coq kernel + vm_compute; the model and encoders; VF2 = a duplicate-free listing of the automorphisms (monitored).  That the "
+              "glued result is a function of the labelled image of the rule centre (equivalently: invariant under rule automorphisms) is a PREMISE of "
+              "C11_prune_same_images / C11_prune_same_results that no theorem discharges - no gluing model is instantiated for it; it is judged end to "
+              "end by the oracle on every rule application (also with partial=True).")
 
 N_CFG = 8
 WL_ATTRS4 = ["element", "charge", "aromatic", "hcount"]
@@ -823,10 +825,11 @@ def _oracle_hist(case):
             for f in _oracle_aut_g(g, st.get("nk"), G=G, ek=st.get("ek")):
                 fails.append(dict(f, detail="step %d: %s" % (k, f["detail"])))
             col = E_old.fit().node_colors            # an estimator object that existed before the edit, fitted again
+            wl_old = E_old.orbits
             for o in _true_orbits(g, lambda a: _nlab(a, ["element", "charge"])):
-                if len({col.get(n) for n in o}) != 1:
-                    fails.append(dict(clause="wl-coarser", detail="step %d: re-fitted estimator: true orbit %r gets WL colours %r"
-                                                                  % (k, o, [col.get(n) for n in o])))
+                if len({col.get(n) for n in o}) != 1 or not any(set(o) <= set(w) for w in wl_old):
+                    fails.append(dict(clause="wl-coarser", detail="step %d: re-fitted estimator: true orbit %r gets WL colours %r / is split by .orbits %r"
+                                                                  % (k, o, [col.get(n) for n in o], sorted(map(sorted, wl_old)))))
                     break
     elif case["script"] == "prune":
         rule = _shared_rule(case["steps"][0]) if case.get("share_rule") else None
@@ -1204,6 +1207,13 @@ def _oracle_aut_g(g, nk=None, G=None, ek=None):
         wl = est.orbits
         if sorted(n for o in wl for n in o) != sorted(G.nodes()):
             fails.append(dict(clause="wl-partition", detail="AutoEst.orbits is not a partition of the nodes: %r" % (wl,)))
+        # the observable the property names is AutoEst.orbits (not the colours): every true orbit - and, under the same
+        # configuration, every orbit the exact analysis reports - lies inside ONE member of it
+        for o in list(truth) + ([list(x) for x in got] if attrs is not WL_ATTRS4 else []):
+            if not any(set(o) <= set(w) for w in wl):
+                fails.append(dict(clause="wl-coarser", detail="attrs=%r: orbit %r is not contained in one member of AutoEst.orbits %r"
+                                                              % (attrs, sorted(o), sorted(map(sorted, wl)))))
+                break
         # (orbit.py's metrics are not part of the property: they are modelled - model/C11_Orbit.v - and compared, not judged here)
     return fails
 
@@ -1219,47 +1229,27 @@ def _oracle_dedup(case):
     cfgs = _dedup_cfgs(P, H)
     for ci, f in enumerate(cfgs):
         ms = [dict((p, h) for p, h in m) for m in case["ms"]]
-        before = [dict(m) for m in ms]
+        orig = list(ms)                   # the same match objects in the ORIGINAL order (the function may reorder its argument)
         if f is None:
             continue
         try:
             out = f(ms)
         except ValueError:
             continue
+        ms = orig
         idx = _indices(ms, out)
-        if ms != before:
-            fails.append(dict(clause="dedup-sublist", detail="cfg %d mutated its input" % ci))
         if not _is_subsequence(idx, len(ms)) or [ms[i] for i in idx if i >= 0] != list(out):
             fails.append(dict(clause="dedup-sublist", detail="cfg %d: output is not a subsequence of the input in original order: indices %r of %d"
                                                              % (ci, idx, len(ms))))
-        if ci == 0 and idx != list(range(len(ms))):
-            fails.append(dict(clause="dedup-sublist", detail="no orbit information given but the list changed"))
     # the automorphism-based de-duplicator only drops matches that are automorphism images of a kept one
     raw, kept = _pm_lists(case)
     ki = _indices(raw, kept)
     if not _is_subsequence(ki, len(raw)):
         fails.append(dict(clause="dedup-sublist", detail="PartialMatcher(prune_auto=True).get_mappings() is not a subsequence of the unpruned "
                                                          "mappings: indices %r of %d" % (ki, len(raw))))
-    if cfgs[N_OLD - 1] is None:
-        return fails
-    g = case["p"]
-    nodes = [n for n, _ in g["nodes"]]
-    lab = {n: _lab_f(a) for n, a in g["nodes"]}
-    adj = _adj(g, _lab_e)
-    auts = brute_auts(nodes, lab, adj)
-    ms = [dict((p, h) for p, h in m) for m in case["ms"]]
-    out = DM.deduplicate_matches_by_automorphisms(automorphisms=iter(DM.graph_automorphisms(graph=P, ignore_node_attrs=["atom_map"])),
-                                                  matches=iter(ms))          # keywords, iterators, list instead of tuple
-    kept = [frozenset(m.items()) for m in out]
-    images = set()
-    for m in out:
-        for s in auts:
-            images.add(frozenset((s[p], h) for p, h in m.items()))
-    for m in ms:
-        if frozenset(m.items()) not in images:
-            fails.append(dict(clause="dedup-aut-sound", detail="dropped match %r is not an automorphism image of any kept match (%d kept, |Aut|=%d)"
-                                                               % (sorted(m.items()), len(kept), len(auts))))
-            break
+    # (that no orbit argument leaves the list as it is, that the input is not modified and that a match dropped by the
+    # automorphism-based de-duplicator is an automorphism image of a kept one are facts about the mechanism, not demands of the
+    # property: the correspondence compares them with the model - audit A3)
     return fails
 
 
